@@ -94,6 +94,38 @@ func openVia(how string, ls *ipld.LinkSystem, root ipld.Node) (ipld.Node, error)
 	return nil, fmt.Errorf("unknown opener %s", how)
 }
 
+// readAllMixed reads rs to EOF with buffers of the given sizes in rotation; a
+// size of 0 is an empty-buffer Read, which must return (0, nil) or, only at the
+// very end of the stream, (0, io.EOF) -- and never end the stream early.
+func readAllMixed(rs io.Reader, sizes []int, limit int) ([]byte, error) {
+	var out []byte
+	for steps := 0; ; steps++ {
+		if steps > limit {
+			return out, fmt.Errorf("read did not terminate within %d calls", limit)
+		}
+		buf := make([]byte, sizes[steps%len(sizes)])
+		n, err := rs.Read(buf)
+		if n < 0 || n > len(buf) {
+			return out, fmt.Errorf("Read returned n=%d for buffer %d", n, len(buf))
+		}
+		out = append(out, buf[:n]...)
+		if err == io.EOF {
+			if len(buf) == 0 {
+				// an empty-buffer Read may report EOF only if the stream really
+				// is at its end: the next non-empty Read must agree
+				more := make([]byte, 8)
+				if n2, _ := rs.Read(more); n2 > 0 {
+					return append(out, more[:n2]...), fmt.Errorf("Read(empty buffer) returned io.EOF with %d+ bytes still to come", n2)
+				}
+			}
+			return out, nil
+		}
+		if err != nil {
+			return out, err
+		}
+	}
+}
+
 // readAllBuf reads rs to EOF with a fixed buffer size; it tolerates legal
 // short reads and (0,nil) up to a small bound.
 func readAllBuf(rs io.Reader, bufSize int, limit int) ([]byte, error) {
